@@ -389,6 +389,61 @@ impl Dispatch {
         Ok(v)
     }
 
+    /// {"k":"install","reqs":[..],"prefix":n}: node A (the leader) applies all requests, node B (a lagging follower)
+    /// only the first n; then B is caught up the way InstallSnapshot does it on a RUNNING node: every record of A's
+    /// real snapshot through `RaftDataHandler::load_snapshot` over B's LIVE state, then `load_complete`.
+    /// Returns the dumps a_final / b_before / b_installed.
+    fn run_install(&self, case: &Value) -> anyhow::Result<Value> {
+        use rnacos::raft::filestore::model::SnapshotRecordDto;
+        let reqs: Vec<ClientRequest> = case["reqs"]
+            .as_array()
+            .ok_or_else(|| anyhow::anyhow!("reqs missing"))?
+            .iter()
+            .map(smutil::parse_req)
+            .collect::<anyhow::Result<Vec<_>>>()?;
+        let prefix = (case["prefix"].as_u64().unwrap_or(0) as usize).min(reqs.len());
+        let occur = Occur::collect(&reqs);
+        let tmp_base = self.tmp_base.clone();
+        let sys = actix_rt::System::new();
+        let out = sys.block_on(async move {
+            let a = MiniNode::build(&tmp_base).await?;
+            let b = MiniNode::build(&tmp_base).await?;
+            let (_ra, ea) = run_leader(&a, &reqs, true).await;
+            let (_rb, _eb) = run_leader(&b, &reqs[..prefix], true).await;
+            a.settle().await?;
+            b.settle().await?;
+            let (a_final, _) = smutil::dump(&a, &occur).await?;
+            let (b_before, _) = smutil::dump(&b, &occur).await?;
+            let recs = smutil::snapshot_part_raw(&a, Part::All).await?;
+            let n_records = recs.len();
+            let mut load_errors = vec![];
+            for (tree, k, v) in recs {
+                let rec = SnapshotRecordDto {
+                    tree: std::sync::Arc::new(tree.clone()),
+                    key: k,
+                    value: v,
+                    op_type: 0,
+                };
+                if let Err(e) = b.handler.load_snapshot(rec).await {
+                    load_errors.push(json!([tree, e.to_string()]));
+                }
+            }
+            b.handler.load_complete().ok();
+            b.settle().await?;
+            b.settle().await?;
+            let (b_installed, _) = smutil::dump(&b, &occur).await?;
+            anyhow::Ok((
+                json!({"r": "ok", "a_final": a_final, "b_before": b_before, "b_installed": b_installed,
+                       "snapshot_records": n_records, "load_errors": load_errors, "leader_errors": ea}),
+                (a.dir, b.dir),
+            ))
+        });
+        drop(sys);
+        let (v, dirs) = out?;
+        drop(dirs);
+        Ok(v)
+    }
+
     /// {"k":"route_samples"}: one valid [tree,key,value] per tree name, taken from the real snapshot of a mini
     /// node that applied the (non-destructive) sample requests, plus a few hand-built ones
     fn run_route_samples(&self) -> anyhow::Result<Value> {
@@ -496,6 +551,7 @@ impl Suite for Dispatch {
             "route" => self.run_route(case),
             "route_samples" => self.run_route_samples(),
             "tmp_snapshot" => self.run_tmp_snapshot(case),
+            "install" => self.run_install(case),
             _ => self.run_case(case),
         })) {
             Ok(Ok(v)) => v,
